@@ -10,9 +10,9 @@ ID = "C17"
 #: Gen/C17.lean and compared with the literal in Properties/C17.lean (`modelled_functions_have_the_transcribed_shape`)
 SHAPES = [
     ("shapeFit", "mlinsights/mlmodel/interval_regressor.py", "IntervalRegressor.fit"),
-    ("shapePredictAll", "mlinsights/mlmodel/interval_regressor.py", "IntervalRegressor.predict_all"),
-    ("shapePredict", "mlinsights/mlmodel/interval_regressor.py", "IntervalRegressor.predict"),
-    ("shapePredictSorted", "mlinsights/mlmodel/interval_regressor.py", "IntervalRegressor.predict_sorted"),
+    ("shapePredictAll", "mlinsights/mlmodel/interval_regressor.py", "IntervalRegressor.predict_all", "full"),
+    ("shapePredict", "mlinsights/mlmodel/interval_regressor.py", "IntervalRegressor.predict", "full"),
+    ("shapePredictSorted", "mlinsights/mlmodel/interval_regressor.py", "IntervalRegressor.predict_sorted", "full"),
 ]
 SRC = "mlinsights/mlmodel/interval_regressor.py"
 LEAN_TARGETS = ["MlVerif.Gen.C17", "MlVerif.Model.Interval", "MlVerif.Properties.C17"]
@@ -235,14 +235,14 @@ def correspond(ctx):
 
 # ------------------------------------------------------------------------------ search (oracle from the statement)
 
-def _one_config(n, alpha, ne, weights, seed, d=2):
+def _one_config(n, alpha, ne, weights, seed, d=2, n_jobs=None):
     """Run the real code once; return a list of (key, what, observed, required)."""
     import numpy
     from mlinsights.mlmodel.interval_regressor import IntervalRegressor
     bad = []
     X, y, w = make_data(n, d, weights)
     numpy.random.seed(seed)
-    model = IntervalRegressor(Recorder(), alpha=alpha, n_estimators=ne)
+    model = IntervalRegressor(Recorder(), alpha=alpha, n_estimators=ne, n_jobs=n_jobs)
     try:
         r = model.fit(X, y, w)
     except Exception as e:
@@ -374,16 +374,18 @@ def search(ctx, hints):
     # (b) general configurations
     for t in range(ctx.pick(60, 1500)):
         n = rng.randint(1, 40)
-        alpha = rng.choice([0.25, 0.5, 0.75, 1.0, 1.0, 1.5, 2.0, 0.3, 0.9])
+        # alpha as a float, and as a Python int (alpha=1, alpha=2: the same fractions of n written without a dot)
+        alpha = rng.choice([0.25, 0.5, 0.75, 1.0, 1.0, 1.5, 2.0, 0.3, 0.9, 1, 2, 1])
         ne = rng.randint(1, 6)
         weights = rng.choice([False, True, "zeros"])
-        bad, _ = _one_config(n, alpha, ne, weights, rng.randrange(1 << 30), d=rng.choice([1, 2, 3]))
+        n_jobs = rng.choice([None, None, 1, 2, 3])
+        bad, _ = _one_config(n, alpha, ne, weights, rng.randrange(1 << 30), d=rng.choice([1, 2, 3]), n_jobs=n_jobs)
         evals += 1
-        nontriv.add((n, alpha, ne, weights))
+        nontriv.add((n, alpha, type(alpha).__name__, ne, weights, n_jobs))
         for key, what, obs, req in bad:
             vs.append(Violation("IntervalRegressor.fit:" + key, what,
-                                {"n": n, "alpha": alpha, "n_estimators": ne, "weights": weights, "kind": "general"},
-                                obs, req))
+                                {"n": n, "alpha": alpha, "n_estimators": ne, "weights": weights, "kind": "general",
+                                 "n_jobs": n_jobs}, obs, req))
     # dedupe by key, keep the smallest n
     best = {}
     for v in vs:
@@ -400,7 +402,7 @@ def replay(ctx, item):
     if inp.get("kind") == "replacement":
         return [Violation("IntervalRegressor.fit:" + k, w, inp, o, r) for k, w, o, r in _with_replacement_probe(1)]
     for s in range(5):
-        bad, drawn = _one_config(n, inp["alpha"], ne, inp["weights"], s)
+        bad, drawn = _one_config(n, inp["alpha"], ne, inp["weights"], s, n_jobs=inp.get("n_jobs"))
         if inp.get("kind") == "elig" and not any(b[0] == "fit-raises" for b in bad):
             missing = sorted(set(range(n)) - drawn)
             if missing:
